@@ -39,9 +39,10 @@ TRUSTED = [
 ]
 ASSUMPTIONS = [
     "valid inputs: trajectories with >= 1 pose, SE(3) matrices, strictly increasing timestamps; ids in range",
-    "the constructor sharing its poses_se3 argument list with the caller is construction, not derivation: it is "
-    "observed and compared with the model but judged only through the stated clauses (arguments unchanged; copies, "
-    "associated trajectories, split parts, merged trajectories independent under later operations)",
+    "the constructor sharing its poses_se3 argument list with the caller is construction: the sharing itself is "
+    "observed and compared with the model, not judged; what is judged is the property's clause for it (quantifier: "
+    "public function, then mutating operations on the output, then re-inspection of the inputs): no later operation "
+    "on the constructed object changes the list / matrices / source object it was built from, and vice versa",
     "ROS bag I/O, TF caches, contextily map tiles, interactive windows are outside the property (not called)",
 ]
 LEVEL_TEXT = (
@@ -221,10 +222,12 @@ def raw_data(seed, n):
     return poses, ts
 
 
-def make_traj(mode, n, seed, stamped=True):
+def make_traj(mode, n, seed, stamped=True, stamp_seed=None):
     from evo.core.trajectory import PosePath3D, PoseTrajectory3D
     import evo.core.transformations as tr
     poses, ts = raw_data(seed, n)
+    if stamp_seed is not None:   # poses of `seed`, stamps of `stamp_seed` (identical stamps for different poses)
+        ts = raw_data(stamp_seed, n)[1]
     if mode == "mat":
         return PoseTrajectory3D(poses_se3=poses, timestamps=ts) if stamped else PosePath3D(poses_se3=poses)
     xyz = np.array([p[:3, 3] for p in poses])
@@ -306,7 +309,7 @@ def run_history(hist):
         c = [c[0]] + [resolve(x) if (k < 2 or op in ("assoc", "merge", "align", "align_origin")) and not (
             op == "reduce" and k == 1) else x for k, x in enumerate(c[1:])]
         subject = c[1] if op in ("transform", "scale", "project", "reduce", "downsample", "time_range",
-                                 "motion_filter", "align", "align_origin") else None
+                                 "motion_filter", "align", "align_origin", "shift_time") else None
         before = [snap(o) if k != subject else None for k, o in enumerate(env)]
         # every array reachable from any object, to see which are written in place
         held = []
@@ -326,6 +329,15 @@ def run_history(hist):
                 _, mode, n, seed, stamped = c
                 res = add_results([make_traj(mode, n, seed, stamped)])
                 term = "CInit %s %s %s" % (cnat(0 if mode == "mat" else 1), cnat(n), cbool(stamped))
+            elif op == "init_stamps":
+                # stamped trajectory with the poses of `seed` and the stamps of `stamp_seed`
+                _, mode, n, seed, stamp_seed = c
+                res = add_results([make_traj(mode, n, seed, True, stamp_seed)])
+                term = "CInit %s %s true" % (cnat(0 if mode == "mat" else 1), cnat(n))
+            elif op == "shift_time":
+                # caller-side in-place time offset of a derived trajectory (as main_traj --t_offset does); writes the
+                # object's own stamps array only, no allocation: not a call of the model (term None)
+                env[c[1]].timestamps += c[2]
             elif op == "get":
                 _, i, g = c
                 {"pos": lambda t: t.positions_xyz, "quat": lambda t: t.orientations_quat_wxyz,
@@ -567,17 +579,24 @@ def hist_judge(case, val, out):
     if "error" in out:
         return {"kind": "model-vs-impl", "failing_input": False, "correspondence": "Heap.exec (history ran into an "
                 "exception on the implementation)", "detail": out["error"]}
-    judged = [v for v in out["violations"] if not v.get("construction") and not v.get("soft")]
+    # An object that was not operated on changed bit-for-bit: the history is a failing input of the property.  This
+    # includes objects built by the public constructor from another object's pose list (quantifier: "every public
+    # ... function of evo.core ... followed by arbitrary mutating operations on the outputs (transform, scale,
+    # project, reduce) and re-inspection of the inputs"): sharing the list is construction and is only observed
+    # (sharing graph), but a later operation on one object that changes what is seen through the other is not.
+    judged = [v for v in out["violations"] if not v.get("soft")]
     if judged:
         v = judged[0]
         return {"kind": "spec-violation", "failing_input": True,
-                "detail": "history %s: step %d: %s" % (json.dumps(case["hist"]), v["step"], v["what"])}
+                "detail": "history %s: step %d: %s%s" % (
+                    json.dumps(case["hist"]), v["step"], v["what"],
+                    " (the two objects are related through the constructor: one was built from the other's "
+                    "poses_se3)" if v.get("construction") else "")}
     if out["violations"]:
         v = out["violations"][0]
         return {"kind": "model-vs-impl", "failing_input": False, "correspondence": "Heap.exec (write footprint)",
-                "detail": "outside the stated clauses (object built by the constructor on another object's matrices, "
-                          "or a cached array replaced by an equal one): history %s: step %d: %s" % (
-                              json.dumps(case["hist"]), v["step"], v["what"])}
+                "detail": "outside the stated clauses (a cached array replaced by an equal one): history %s: step %d: "
+                          "%s" % (json.dumps(case["hist"]), v["step"], v["what"])}
     (new_objs, new_log), (old_objs, old_log) = val
     mg, ig = model_graph(new_objs), out["graph"]
     why = _cmp_graph(mg, ig)
@@ -672,6 +691,37 @@ def systematic_histories(ctx):
                     continue
                 cases.append(mk_hist(mode, 10 + k % 7, WARMS[k % len(WARMS)], dcmds + [_mut(m, ["r", (k // 3) % nres])],
                                      WARMS[(k // 5) % len(WARMS)], stamped=False))
+    return cases
+
+
+def assoc_equal_histories(ctx):
+    """Both trajectories have the SAME number of poses and every stamp is matched (identical stamps, or stamps that
+    differ by the +-1 ms jitter of raw_data, max_diff 0.01): associate (both argument orders), then operate on one of
+    the two associated trajectories (every in-place method, a time offset), then re-inspect the inputs."""
+    cases, k = [], 0
+    muts = MUTS + [["shift_time", 0.5]]
+    for jitter in (False, True):
+        for order in ((0, 1), (1, 0)):
+            for which in (0, 1):
+                for m in muts:
+                    k += 1
+                    if ctx.quick and which == 1 and (k + order[0]) % 4 != 0:
+                        continue      # quick: the second result (always an independent copy so far) every 4th time
+                    mode = ("mat", "pq")[(k + (k // len(muts))) % 2]
+                    oth = ("pq", "mat")[(k // 3) % 2] if k % 5 else mode
+                    seed = 50 + k % 9
+                    h = [["init", mode, N_A, seed, True],
+                         ["init", oth, N_A, seed + 1, True] if jitter else ["init_stamps", oth, N_A, seed + 1, seed]]
+                    h += [["get", 0, g] for g in WARMS[k % len(WARMS)]]
+                    h += [["get", 1, g] for g in WARMS[(k // 2) % len(WARMS)]]
+                    b = ["r", which]
+                    mm = list(m)
+                    if m[0] in ("align", "align_origin"):
+                        # align the associated trajectory to its partner (the other associated one) or to an input
+                        mm[1] = ["r", 1 - which] if k % 2 else m[1]
+                    h += [["assoc", order[0], order[1], 0.01], _mut(mm, b)]
+                    h += [["get", 0, g] for g in WARMS[(k // 5) % len(WARMS)]]
+                    cases.append({"kind": "history", "hist": h})
     return cases
 
 
@@ -876,6 +926,39 @@ def call_table():
                                                      lambda: PoseTrajectory3D(I.xyz, I.quat, I.stamps).poses_se3, None))
     add(tj + "PoseTrajectory3D.__init__", lambda I: ({"poses": I.poses, "stamps": I.stamps},
                                                      lambda: PoseTrajectory3D(poses_se3=I.poses, timestamps=I.stamps).distances, None))
+    # the constructor is a public function: operate on its output in every in-place way, then re-inspect its inputs
+    # (the caller's list of matrices / arrays / the path whose pose list was handed over); a fresh object per operation
+    def out_muts(I, ref=None):
+        ref = I.Q if ref is None else ref
+        ms = [lambda t: t.transform(I.T), lambda t: t.transform(I.T, right_mul=True),
+              lambda t: t.transform(I.T, right_mul=True, propagate=True),
+              lambda t: t.transform(I.S), lambda t: t.transform(I.S, right_mul=True, propagate=True),
+              lambda t: t.scale(1.7), lambda t: t.project(Plane.XY), lambda t: t.project(Plane.YZ),
+              lambda t: t.reduce_to_ids(I.ids), lambda t: t.downsample(4), lambda t: t.motion_filter(0.5, 0.2),
+              lambda t: t.align(ref, correct_scale=True), lambda t: t.align(ref, correct_only_scale=True, n=5),
+              lambda t: t.align(ref), lambda t: t.align_origin(ref)]
+        return ms
+
+    def ctor_then_mutate(I, build, reads=True):
+        for m in out_muts(I):
+            t = build()
+            if reads:
+                t.positions_xyz, t.orientations_quat_wxyz
+            m(t)
+            t.positions_xyz, t.orientations_quat_wxyz, t.poses_se3
+    for reads in (False, True):
+        add(tj + "PosePath3D.__init__", lambda I, r=reads: (
+            {"poses": I.poses, "Q": I.Q}, lambda: ctor_then_mutate(I, lambda: PosePath3D(poses_se3=I.poses), r), None))
+        add(tj + "PosePath3D.__init__", lambda I, r=reads: (
+            {"xyz": I.xyz, "quat": I.quat, "Q": I.Q}, lambda: ctor_then_mutate(I, lambda: PosePath3D(I.xyz, I.quat), r), None))
+        add(tj + "PosePath3D.__init__", lambda I, r=reads: (
+            {"P": I.P, "Q": I.Q}, lambda: ctor_then_mutate(I, lambda: PosePath3D(poses_se3=I.P.poses_se3, meta=I.P.meta), r), None))
+        add(tj + "PoseTrajectory3D.__init__", lambda I, r=reads: (
+            {"poses": I.poses, "stamps": I.stamps, "Q": I.Q},
+            lambda: ctor_then_mutate(I, lambda: PoseTrajectory3D(poses_se3=I.poses, timestamps=I.stamps), r), None))
+        add(tj + "PoseTrajectory3D.__init__", lambda I, r=reads: (
+            {"P": I.P, "stamps": I.stamps, "Q": I.Q},    # as contrib/kitti_poses_and_timestamps_to_trajectory.py does
+            lambda: ctor_then_mutate(I, lambda: PoseTrajectory3D(poses_se3=I.P.poses_se3, timestamps=I.stamps), r), None))
     for cls, obj in (("PosePath3D", "P"), ("PoseTrajectory3D", "A")):
         rd = lambda r, o=obj: ([o], r)   # noqa
         add(tj + cls + ".__str__", lambda I, o=obj: ({o: I.trajs[o]}, lambda: str(I.trajs[o]), ([o], "RInfo 0 false")))
@@ -923,6 +1006,24 @@ def call_table():
                                                  lambda: sync.matching_time_indices(I.A.timestamps, I.C.timestamps, 0.01, 0.001), None))
     add(sy + "associate_trajectories", lambda I: ({"A": I.A, "C": I.C}, lambda: sync.associate_trajectories(I.A, I.C, 0.01, 0.001), None))
     add(sy + "associate_trajectories", lambda I: ({"A": I.A, "C": I.C}, lambda: sync.associate_trajectories(I.C, I.A, 0.01), None))
+
+    # associated trajectories are derived objects: operate on them, then re-inspect the inputs. A and B have the same
+    # number of poses and every stamp matches (+-1 ms jitter); A and A2 have identical stamps; A and C differ in length
+    def assoc_then_mutate(I, x, y, **kw):
+        for k in range(len(out_muts(I)) + 2):
+            for which in (0, 1):
+                r = sync.associate_trajectories(x, y, **kw)
+                ms = out_muts(I, r[1 - which]) + [lambda t: t.timestamps.__iadd__(0.5),
+                                                  lambda t: t.reduce_to_time_range(I.stamps[1], I.stamps[-2])]
+                ms[k](r[which])
+                r[which].positions_xyz, r[which].poses_se3
+    add(sy + "associate_trajectories", lambda I: ({"A": I.A, "B": I.B, "Q": I.Q}, lambda: assoc_then_mutate(I, I.A, I.B), None))
+    add(sy + "associate_trajectories", lambda I: ({"A": I.A, "B": I.B, "Q": I.Q}, lambda: assoc_then_mutate(I, I.B, I.A, max_diff=0.005), None))
+    add(sy + "associate_trajectories", lambda I: (
+        {"A": I.A, "A2": I.__dict__.setdefault("A2", PoseTrajectory3D(I.xyz2, I.quat, np.array(I.A.timestamps))), "Q": I.Q},
+        lambda: assoc_then_mutate(I, I.A, I.A2), None))
+    add(sy + "associate_trajectories", lambda I: ({"A": I.A, "C": I.C, "Q": I.Q}, lambda: assoc_then_mutate(I, I.A, I.C), None))
+    add(sy + "associate_trajectories", lambda I: ({"A": I.A, "C": I.C, "Q": I.Q}, lambda: assoc_then_mutate(I, I.C, I.A, offset_2=0.001), None))
 
     # ---------------- metrics
     for rel in PR:
@@ -1353,7 +1454,7 @@ def shrink(case):
     if case["kind"] != "history":
         return
     h = case["hist"]
-    creating = ("init", "copy", "assoc", "merge", "split", "ctor_poses", "ctor_pq")
+    creating = ("init", "init_stamps", "copy", "assoc", "merge", "split", "ctor_poses", "ctor_pq")
     for k in range(len(h) - 1, 1, -1):
         if h[k][0] not in creating:
             yield {"kind": "history", "hist": h[:k] + h[k + 1:]}
@@ -1391,7 +1492,8 @@ def run(ctx, replay=None, proofs_ok=True):
     if replay is not None:
         cases = [replay["case"]]
     else:
-        cases = CORPUS + call_cases(ctx) + systematic_histories(ctx) + three_step_histories(ctx) + random_histories(ctx)
+        cases = (CORPUS + call_cases(ctx) + systematic_histories(ctx) + assoc_equal_histories(ctx)
+                 + three_step_histories(ctx) + random_histories(ctx))
     failures, stats = differential(ctx, cases, imports=IMPORTS, impl=impl, expr=expr, judge=judge, shrink=shrink,
                                    nontrivial=nontrivial, scope=None, per_file=80)
     covered = [n for n in names if n in table]
@@ -1418,7 +1520,9 @@ def run(ctx, replay=None, proofs_ok=True):
         "evaluations": stats["evaluations"], "distinct_nontrivial": stats["distinct_nontrivial"],
         "rule": "(a) every entry of the call table x variants x {matrix, xyz+quaternion storage} x {cold, warm caches}; "
                 "(b,c) corpus (F5a/F5b reproducers, PosePath3D) + systematic 2-step histories (15 derivations x 20 "
-                "in-place operations x 2 storage modes x 4 cache states of the source; quick: every 3rd) + 3-step "
+                "in-place operations x 2 storage modes x 4 cache states of the source; quick: every 3rd) + association of "
+                "equally long, fully matched trajectories (identical / jittered stamps, both argument orders) followed by "
+                "every in-place operation or a time offset on either result + 3-step "
                 "histories + random histories with several live objects; distinct by input; non-trivial = history "
                 "with >= 3 live objects in which an in-place method really changed its object / call that returned",
         "samples": [cases[0], cases[min(len(CORPUS), len(cases) - 1)], cases[-1]],
